@@ -515,6 +515,12 @@ func checkPull(r *report.Run, script []item, cfg config, idx int64) int64 {
 			}
 		}
 	}
+	for k := 0; k < 2; k++ {
+		if p, err := ps.NextPacket(); p != nil || err != io.EOF {
+			bad("phantom packet", fmt.Sprintf("call %d after the script ended: packet=%v err=%v, the source reported io.EOF", k+1, p != nil, err))
+			break
+		}
+	}
 	for i, p := range held {
 		if string(p.Data()) != string(pktBytes(i)) {
 			bad("intact", fmt.Sprintf("packet %d altered by later reads: %x", i, p.Data()))
@@ -524,43 +530,71 @@ func checkPull(r *report.Run, script []item, cfg config, idx int64) int64 {
 	return int64(len(script))
 }
 
-// concat: every split of a packet/transient script over <=3 sources yields the same sequence, then EOF
+// concat: every split of a packet/transient script over 0..3 sources yields the same sequence and
+// then end of input - for good: reads after the end keep reporting io.EOF and never invent a
+// packet; the same through a PacketSource's pull interface on top of the concatenation.
 func checkConcat(r *report.Run, script []item, idx int64) int64 {
 	var evals int64
 	n := len(script)
+	type split struct{ nsrc, a, b int }
+	var splits []split
+	if n == 0 {
+		splits = append(splits, split{0, 0, 0})
+	}
+	splits = append(splits, split{1, n, n})
 	for a := 0; a <= n; a++ {
+		splits = append(splits, split{2, a, n})
 		for b := a; b <= n; b++ {
+			splits = append(splits, split{3, a, b})
+		}
+	}
+	for _, sp := range splits {
+		for mode := 0; mode < 2; mode++ {
 			cnt := 0
-			s1 := &seqSource{items: script[:a], pktNo: &cnt}
-			s2 := &seqSource{items: script[a:b], pktNo: &cnt}
-			s3 := &seqSource{items: script[b:], pktNo: &cnt}
-			cs := gopacket.ConcatFinitePacketDataSources(s1, s2, s3)
+			srcs := []gopacket.PacketDataSource{
+				&seqSource{items: script[:sp.a], pktNo: &cnt},
+				&seqSource{items: script[sp.a:sp.b], pktNo: &cnt},
+				&seqSource{items: script[sp.b:], pktNo: &cnt}}[:sp.nsrc]
+			cs := gopacket.ConcatFinitePacketDataSources(srcs...)
+			read := cs.ReadPacketData
+			if mode == 1 {
+				ps := gopacket.NewPacketSource(cs, gopacket.DecodePayload)
+				read = func() ([]byte, gopacket.CaptureInfo, error) {
+					p, err := ps.NextPacket()
+					if p == nil {
+						return nil, gopacket.CaptureInfo{}, err
+					}
+					return p.Data(), p.Metadata().CaptureInfo, err
+				}
+			}
 			evals++
 			pk := 0
-			ok := true
+			why := ""
 			for _, it := range script {
-				d, ci, err := cs.ReadPacketData()
+				d, ci, err := read()
 				switch it.k {
 				case kPkt, kPktTrunc:
 					if err != nil || string(d) != string(pktBytes(pk)) || ci.InterfaceIndex != pk {
-						ok = false
+						why = fmt.Sprintf("packet %d: data %x err %v", pk, d, err)
 					}
 					pk++
 				case kTimeout:
 					if err != (timeoutErr{}) {
-						ok = false
+						why = fmt.Sprintf("timeout item gave err %v", err)
 					}
 				case kTemp:
 					if err != errTemp {
-						ok = false
+						why = fmt.Sprintf("transient item gave err %v", err)
 					}
 				}
 			}
-			if _, _, err := cs.ReadPacketData(); err != io.EOF {
-				ok = false
+			for k := 0; k < 3 && why == ""; k++ {
+				if d, _, err := read(); err != io.EOF || d != nil {
+					why = fmt.Sprintf("read %d after the last item: data=%v err=%v, want end of input", k+1, d != nil, err)
+				}
 			}
-			if !ok {
-				r.Violation("concat|sequence differs from the concatenation of the sources", fmt.Sprintf("script=%v split at %d,%d", script, a, b), idx, map[string]any{"family": "concat", "script": fmt.Sprint(script), "split": []int{a, b}})
+			if why != "" {
+				r.Violation("concat|sequence differs from the concatenation of the sources", fmt.Sprintf("%s; script=%v over %d sources split at %d,%d (through PacketSource.NextPacket: %v)", why, script, sp.nsrc, sp.a, sp.b, mode == 1), idx, map[string]any{"family": "concat", "script": fmt.Sprint(script), "sources": sp.nsrc, "split": []int{sp.a, sp.b}})
 			}
 		}
 	}
